@@ -1,4 +1,4 @@
-import Octave.Lemmas.FlatLex
+import Octave.Lemmas.FlatLexBase
 /-!
 NUMBER lexemes as the emitter writes them (`intStr i`, Python's `repr(float)`): the decimal rendering and the model's
 digit-by-digit evaluation are inverse, `Scan.number` stops exactly at the end of the lexeme, the three VERSION patterns
